@@ -92,7 +92,9 @@ Drifts(ev) ==
   CASE ev.ev = "Register" /\ ev.exc = "" ->
          LET r == Register(Fix(ev.meta), [next |-> ev.before.next, models |-> FixModels(ev.before)])
          IN ~SameModels(r.st.models, FixModels(ev.after)) \/ r.root # ev.root
-    [] ev.ev = "MergeModels" /\ ev.exc = "" ->
+    \* the faithful closure loop grows quadratically per pass: the algorithm layer follows the code only on
+    \* instances of bounded size (drift is information, never a verdict)
+    [] ev.ev = "MergeModels" /\ ev.exc = "" /\ Len(ev.before.models) <= 12 ->
          LET r == MergeModels([next |-> ev.before.next, models |-> FixModels(ev.before)],
                               FixPolicy(ev.policy), FixEnv(ev.env))
          IN ~SameModels(r.models, FixModels(ev.after))
@@ -101,7 +103,9 @@ Drifts(ev) ==
 NextSt(ev, s) ==
   CASE ev.ev = "Begin" -> [NoSt EXCEPT !.hasFirst = s.hasFirst, !.first = s.first]
     [] ev.ev = "Root"  -> [s EXCEPT !.roots = Append(s.roots, [samples |-> ev.samples])]
-    [] ev.ev = "MergeModels" /\ ev.exc = "" ->
+    \* the faithful closure loop grows quadratically per pass: the algorithm layer follows the code only on
+    \* instances of bounded size (drift is information, never a verdict)
+    [] ev.ev = "MergeModels" /\ ev.exc = "" /\ Len(ev.before.models) <= 12 ->
          [s EXCEPT !.last = FixModels(ev.after),
                    !.hasFirst = TRUE,
                    !.first = IF s.hasFirst THEN s.first ELSE CanonGraph(FixModels(ev.after))]
